@@ -1,6 +1,6 @@
 (* C17 property theorems: statements only, each closed by [exact]. *)
 From FoxBase Require Import Bytes.
-From FoxC17 Require Import Spec Model Proofs ProofsModel.
+From FoxC17 Require Import Spec Model Proofs ProofsModel ProofsLen.
 Open Scope char_scope.
 
 (* 1. CleanPath never panics (and the model's fuel always suffices), for every input *)
@@ -77,3 +77,16 @@ Print Assumptions clean_iff_fixed.
 Theorem cleanpath_fixed_iff : forall p, cleanpath p = Ok p <-> canonical p = true.
 Proof. exact ProofsModel.cleanpath_fixed_iff. Qed.
 Print Assumptions cleanpath_fixed_iff.
+
+(* 6. the result is never longer than the input plus the one leading slash a relative
+      path receives: the bound the n+1-byte buffer of path.go relies on; it is reached *)
+Theorem clean_spec_length : forall p, List.length (clean_spec p) <= S (List.length p).
+Proof. exact ProofsLen.clean_spec_length. Qed.
+Print Assumptions clean_spec_length.
+
+Theorem cleanpath_length : forall p o, cleanpath p = Ok o -> List.length o <= S (List.length p).
+Proof. exact ProofsLen.cleanpath_length. Qed.
+Print Assumptions cleanpath_length.
+
+Example clean_spec_length_tight : List.length (clean_spec (S2B "a")) = S (List.length (S2B "a")).
+Proof. exact ProofsLen.clean_spec_length_tight. Qed.
